@@ -1,8 +1,8 @@
 (* Model.get_value (model.py:331-370) on top of ModelSM: recursive evaluation with memoisation, states at
    their initial values, the free variable at 0.  Right-hand sides are Expr trees; numbers are evaluated exactly
    in Q on the rational fragment (+, *, integer powers of non-zero bases) -- the harness generates only such
-   right-hand sides, so the reference value is exact.  A derivative atom on a right-hand side makes the code raise
-   ValueError (finding F9): mirrored.  No proofs here. *)
+   right-hand sides, so the reference value is exact.  A derivative atom on a right-hand side takes the value of the
+   right-hand side of its ODE (Model._evaluate, after the fix: commit for finding F9).  No proofs here. *)
 From Coq Require Import List ZArith QArith Bool.
 From Verif Require Import Sexp Expr ModelSM.
 Import ListNotations.
@@ -13,24 +13,25 @@ Definition Qpow (b : Q) (n : Z) : option Q :=
   if Qeq_bool b 0 then (if 0 <? n then Some 0%Q else if n =? 0 then Some 1%Q else None)
   else Some (Qpower b n).
 
-Fixpoint evalQ (env : Z -> option Q) (e : expr) : option Q :=
+Fixpoint evalQ (env : Z -> option Q) (denv : Z -> Z -> option Q) (e : expr) : option Q :=
   let fix sumQ (l : list expr) : option Q :=
     match l with
     | [] => Some 0%Q
-    | x :: r => match evalQ env x, sumQ r with Some a, Some b => Some (a + b)%Q | _, _ => None end
+    | x :: r => match evalQ env denv x, sumQ r with Some a, Some b => Some (a + b)%Q | _, _ => None end
     end in
   let fix prodQ (l : list expr) : option Q :=
     match l with
     | [] => Some 1%Q
-    | x :: r => match evalQ env x, prodQ r with Some a, Some b => Some (a * b)%Q | _, _ => None end
+    | x :: r => match evalQ env denv x, prodQ r with Some a, Some b => Some (a * b)%Q | _, _ => None end
     end in
   match e with
   | ENum _ q => Some q
   | EQty _ q _ => Some q
   | EVar v => env v
+  | EDeriv (EVar y) (EVar t) 1 => denv y t
   | EAdd l => sumQ l
   | EMul l => prodQ l
-  | EPow b (ENum 0 n) => match evalQ env b with
+  | EPow b (ENum 0 n) => match evalQ env denv b with
                          | Some x => if Zpos (Qden n) =? 1 then Qpow x (Qnum n) else None
                          | None => None
                          end
@@ -60,6 +61,10 @@ Variable rhs : list expr.          (* right-hand side of pool equation e, variab
 
 Definition memo := list (vid * Q).
 Definition mget (m : memo) (v : vid) : option Q := dget Nat.eqb m v.
+(* the entries of `evaluated` keyed by a Derivative object *)
+Definition pair_eqb (a b : vid * vid) : bool := Nat.eqb (fst a) (fst b) && Nat.eqb (snd a) (snd b).
+Definition dmemo := list ((vid * vid) * Q).
+Definition dmget (m : dmemo) (y t : vid) : option Q := dget pair_eqb m (y, t).
 
 Definition free_of (s : mstate) : option vid :=
   match get_free_variable pool s with MOk t => Some t | MErr _ => None end.
@@ -73,7 +78,10 @@ Definition initial_memo (s : mstate) : memo :=
                       | Some r => match v_init r with Some q => [(fst ve, q)] | None => [] end
                       | None => [] end) (odef s).
 
-Fixpoint value_of (fuel : nat) (s : mstate) (m : memo) (v : vid) : vres (Q * memo) :=
+(* value_of = Model._get_value(variable, evaluated); eval_rhs = Model._evaluate(expr, evaluated) for the right-hand side x
+   of pool equation q: first every derivative atom (value of the right-hand side of its ODE), then every variable, then
+   the arithmetic *)
+Fixpoint value_of (fuel : nat) (s : mstate) (m : memo * dmemo) (v : vid) : vres (Q * (memo * dmemo)) :=
   match fuel with
   | O => VErr VFuel
   | S f =>
@@ -91,38 +99,86 @@ Fixpoint value_of (fuel : nat) (s : mstate) (m : memo) (v : vid) : vres (Q * mem
             end
         | Some e =>
             match nth_error pool e, nth_error rhs e with
-            | Some q, Some x =>
-                (* for dep in deps: if dep not in evaluated: evaluated[dep] = self._get_value(dep, evaluated) *)
-                let deps :=
-                  fold_left (fun acc d =>
-                    match acc with
-                    | VErr e => VErr e
-                    | VOk m' => match mget m' d with
-                                | Some _ => VOk m'
-                                | None => match value_of f s m' d with
-                                          | VOk (x, m'') => VOk (dset Nat.eqb m'' d x)
-                                          | VErr e => VErr e
-                                          end
-                                end
-                    end) (e_atoms q) (VOk m) in
-                match deps with
-                | VErr e => VErr e
-                | VOk m' =>
-                    if has_deriv x then VErr VValue      (* Derivative(1.0, 0): "Can't calculate derivative wrt 0" *)
-                    else match evalQ (fun z => mget m' (Z.to_nat z)) x with
-                         | Some r => VOk (r, m')
-                         | None => VErr VOutside
-                         end
-                end
+            | Some q, Some x => eval_rhs f s m q x
             | _, _ => VErr VOutside
             end
         end
+  end
+with eval_rhs (fuel : nat) (s : mstate) (m : memo * dmemo) (q : eqrec) (x : expr) : vres (Q * (memo * dmemo)) :=
+  match fuel with
+  | O => VErr VFuel
+  | S f =>
+      (* for deriv in expr.atoms(Derivative): if deriv not in evaluated: evaluated[deriv] = self._evaluate(ode.rhs, evaluated) *)
+      let ders :=
+        fold_left (fun acc r =>
+          match acc, r with
+          | VErr e, _ => VErr e
+          | VOk m', RVar _ => VOk m'
+          | VOk m', RDer y t =>
+              match dmget (snd m') y t with
+              | Some _ => VOk m'
+              | None =>
+                  match dget Nat.eqb (odef s) y with
+                  | None => VErr VValue                              (* 'No definition set for Derivative(...)' *)
+                  | Some e' =>
+                      match nth_error pool e', nth_error rhs e' with
+                      | Some q', Some x' =>
+                          match e_lhs q' with
+                          | LDeriv y' t' _ _ =>
+                              if Nat.eqb y' y && Nat.eqb t' t then
+                                match eval_rhs f s m' q' x' with
+                                | VOk (r0, m'') => VOk (fst m'', dset pair_eqb (snd m'') (y, t) r0)
+                                | VErr e => VErr e
+                                end
+                              else VErr VValue
+                          | _ => VErr VValue
+                          end
+                      | _, _ => VErr VOutside
+                      end
+                  end
+              end
+          end) (e_refs q) (VOk m) in
+      match ders with
+      | VErr e => VErr e
+      | VOk m1 =>
+          (* for dep in deps: if dep not in evaluated: evaluated[dep] = self._get_value(dep, evaluated) *)
+          let deps :=
+            fold_left (fun acc d =>
+              match acc with
+              | VErr e => VErr e
+              | VOk m' => match mget (fst m') d with
+                          | Some _ => VOk m'
+                          | None =>
+                              (* every state is a key of `evaluated`, with value None when it has no initial value *)
+                              if dhas Nat.eqb (odef s) d then VOk m' else
+                                    match value_of f s m' d with
+                                    | VOk (x0, m'') => VOk (dset Nat.eqb (fst m'') d x0, snd m'')
+                                    | VErr e => VErr e
+                                    end
+                          end
+              end) (e_atoms q) (VOk m1) in
+          match deps with
+          | VErr e => VErr e
+          | VOk m2 =>
+              (* xreplace puts None where a state without initial value is read outside a derivative atom: the arithmetic
+                 then raises (SympifyError / AttributeError / TypeError) *)
+              if existsb (fun r => match r with
+                                   | RVar v => dhas Nat.eqb (odef s) v &&
+                                               match mget (fst m2) v with Some _ => false | None => true end
+                                   | RDer _ _ => false
+                                   end) (e_refs q) then VErr VType else
+              match evalQ (fun z => mget (fst m2) (Z.to_nat z)) (fun y t => dmget (snd m2) (Z.to_nat y) (Z.to_nat t)) x with
+              | Some r => VOk (r, m2)
+              | None => VErr VOutside
+              end
+          end
+      end
   end.
 
 (* get_value: the memo dictionary is created on first need; creating it evaluates float(initial_value) lazily in the
    code only through the dict, so a state without initial value only matters when it is used *)
 Definition get_value (fuel : nat) (s : mstate) (v : vid) : vres Q :=
-  match value_of fuel s (initial_memo s) v with
+  match value_of fuel s (initial_memo s, []) v with
   | VOk (x, _) => VOk x
   | VErr e => VErr e
   end.
